@@ -108,3 +108,45 @@ func TestVP_C38_Allocator(t *testing.T) {
 		st.Case(fmt.Sprintf("g=%v k=%d via=%s", g, k, cls), g[0] >= 2 && g[1] >= 2, cls)
 	})
 }
+
+// TestVP_C38_Fresh concentrates on the first allocations of a fresh connection: per case a
+// few hundred brand-new allocator pairs, each hit by 2-8 goroutines released together that
+// take only 1-3 identifiers. (Lazy initialisation and first-use races only exist there; a
+// long run on one allocator passes the window once.)
+func TestVP_C38_Fresh(t *testing.T) {
+	st := vp.NewStats("C38", "fresh", "200-600 fresh allocator pairs (or peer.Connection pairs) per case, each used by 2-8 goroutines per end released together for 1-3 allocations; same uniqueness/parity/contiguity oracle; non-trivial = always (>=2 goroutines per end)")
+	defer st.Flush()
+	rapid.Check(t, func(t *rapid.T) {
+		rounds := rapid.IntRange(200, 600).Draw(t, "rounds")
+		g := [2]int{rapid.IntRange(2, 8).Draw(t, "g0"), rapid.IntRange(2, 8).Draw(t, "g1")}
+		k := rapid.IntRange(1, 3).Draw(t, "k")
+		viaConn := rapid.IntRange(0, 3).Draw(t, "viaPeerConnection") == 0
+		for r := 0; r < rounds; r++ {
+			var next [2]func() uint64
+			var closers []func() error
+			if viaConn {
+				n := mem.NewNet()
+				d, l := n.Pair("c38f")
+				cd := peer.NewConnection(d, peer.ConnectionConfig{})
+				cl := peer.NewConnection(l, peer.ConnectionConfig{})
+				closers = append(closers, cd.Close, cl.Close)
+				next = [2]func() uint64{cd.NextStreamID, cl.NextStreamID}
+			} else {
+				a, b := transport.NewStreamIDAllocator(true), transport.NewStreamIDAllocator(false)
+				next = [2]func() uint64{a.Next, b.Next}
+			}
+			ids := vpC38Run(g, k, next)
+			for _, c := range closers {
+				c()
+			}
+			if err := vpC38Verify(ids); err != nil {
+				t.Fatalf("VPFAIL C38 %v (fresh pair no. %d, goroutines=%v k=%d viaPeerConnection=%v)", err, r+1, g, k, viaConn)
+			}
+		}
+		cls := "allocator"
+		if viaConn {
+			cls = "peer.Connection"
+		}
+		st.Case(fmt.Sprintf("rounds=%d g=%v k=%d via=%s", rounds, g, k, cls), true, cls)
+	})
+}
